@@ -412,7 +412,10 @@ def display_is_budgeted(F, res, rule="Q16"):
     # every cycle passes a gated call: remove the gated call edges and look for a remaining cycle
     edges = {}
     gated_sites = 0
-    counted = {}
+    gated_callees = set()
+    from lib.flow import op_local_
+    # closures are attached to their parents in the call graph: that edge is examined at the place where the closure is built
+    closure_children = {m: {c for c in members if c.startswith(m + "::{closure")} for m in members}
     for m in members:
         f = F.fns.get(m)
         if f is None or not f.blocks:
@@ -420,20 +423,33 @@ def display_is_budgeted(F, res, rule="Q16"):
         d = FL.Defs(f)
         for b, t in f.calls():
             c = callee(t) or ""
-            tgts = [c] if c in members else [x for x in cg.get(m, ()) if x in members and (callee_def(t) or "").rsplit("::", 1)[-1] == x.rsplit("::", 1)[-1]] if c not in F.fns else []
+            tgts = [c] if c in members else [x for x in cg.get(m, ()) if x in members and x not in closure_children.get(m, ()) and
+                                              (callee_def(t) or "").rsplit("::", 1)[-1] == x.rsplit("::", 1)[-1]] if c not in F.fns else []
             if not tgts:
                 continue
             gs = FL.gates(F, f, [b], d)
             ok = any((g.get("callee") or "") == bp and g.get("allowed") in ([False], [0]) for g in gs)
             if ok:
                 gated_sites += 1
-                # what is counted around this descent
-                for e in EF.field_effects(f, TF):
-                    if e["how"] == "assign" and e["field"] in bfields:
-                        counted.setdefault(e["field"], set()).add(m)
+                gated_callees.add(c)
             else:
                 for x in tgts:
                     edges.setdefault(m, set()).add(x)
+        # a closure of m that is a member: the descent is where m builds it and hands it on (`f.nested(|f| self.walk(f))`)
+        for b, i, s_ in f.stmts():
+            rv = s_.get("rv") or {}
+            if rv.get("k") == "agg" and rv.get("closure") in members:
+                gs = FL.gates(F, f, [b], d)
+                ok = any((g.get("callee") or "") == bp and g.get("allowed") in ([False], [0]) for g in gs)
+                if ok:
+                    gated_sites += 1
+                    # whoever is handed the closure runs it: its writes surround the descent
+                    for b2, t2 in f.calls():
+                        if any(op_local_(a) == s_["place"]["l"] for a in t2["args"] if isinstance(a, dict)) and f.can_reach(b, [b2]) or b2 == b:
+                            gated_callees.add(callee(t2) or "")
+                else:
+                    edges.setdefault(m, set()).add(rv["closure"])
+            
     # cycle detection over the ungated edges
     color = {}
 
@@ -457,7 +473,7 @@ def display_is_budgeted(F, res, rule="Q16"):
         for e in EF.field_effects(f, TF):
             if e["how"] == "assign" and e["field"] in bfields:
                 writers.setdefault(e["field"], set()).add(p_)
-    depthlike = [fl for fl, ws in writers.items() if ws & members]
+    depthlike = [fl for fl, ws in writers.items() if ws & (members | gated_callees)]
     sizelike = [fl for fl, ws in writers.items() if any(any(FL.short(callee(t) or callee_def(t) or "").endswith("write_str") for _b, t in F.fns[w].calls()) for w in ws)]
     res.ob(rule, "display/budget-counts-depth-and-size", "the budget compares a counter that moves with the descent (depth: stack) and one that grows with the "
            "text written (size: time and memory)", bool(depthlike) and bool(sizelike) and set(depthlike) != set(sizelike) or (len(depthlike) >= 1 and len(sizelike) >= 1 and depthlike != sizelike),
